@@ -114,7 +114,7 @@ inductive Event
   | send (t : Tid)                      -- one unbuffered send of the completer, joint with the receiving waiter
   | saved (t : Tid) (ok : Bool)         -- saveToStore (its outcome) and unlock
   | resume (t : Tid)                    -- the woken waiter continues
-  | age (t : Tid)                       -- Age() under the read lock: a separate step from get()
+  | age (t : Tid)                       -- Age() under the read lock (waits for a completer): a separate step from get()
   | tick (d : Int)                      -- the clock advances by d > 0 seconds
   | crash                               -- the process dies: threads, entries and shards are gone, the store stays
 deriving Repr
@@ -217,7 +217,9 @@ def step (reread : Bool) (s : State) : Event → Option State
     | _ => none
   | .age t =>
     match s.pc t with
-    | .hitServe e r => some { s with pc := upd s.pc t (.done (.hit r (Entry.age s.now (s.entries e)))) }
+    | .hitServe e r =>
+      -- Age() takes the read lock: it waits while a completer holds the entry lock
+      if s.lock e = none then some { s with pc := upd s.pc t (.done (.hit r (Entry.age s.now (s.entries e)))) } else none
     | _ => none
   | .tick d => if d > 0 then some { s with now := s.now + d } else none
   | .crash =>
